@@ -1713,6 +1713,12 @@ def mapping_of(prog, fn, v, t):
     t = strip_iter_calls(t)
     while t[0] == "ok":
         t = t[1]
+    if t[0] == "field" and t[2] is None and t[3] in ("0", "1") and is_call(t[1], name="unzip") and len(t[1][2]) == 1:
+        # one side of `pairs.into_iter().unzip()`: one value per pair, its k-th component
+        m = mapping_of(prog, fn, v, t[1][2][0])
+        if m and m["key"] is None and m["val"][0] == "agg" and m["val"][1] == "tuple" and len(m["val"][4]) == 2:
+            return {"source": m["source"], "key": None, "val": m["val"][4][int(t[3])][1], "form": m["form"] + "+unzip"}
+        return None
     if is_call(t, name="collect") and t[2] and is_call(t[2][0], name="map"):
         t = t[2][0]
     if is_call(t, name="map") and len(t[2]) == 2 and "Iterator" in t[1]:
@@ -1780,6 +1786,7 @@ def seq_view(t):
     -> dict(base, drop_front, drop_back, reversed, adaptors={name: n}) (None for an unrecognised chain)"""
     ops = []
     adaptors = {}
+    filters = []
     while isinstance(t, tuple) and t:
         if t[0] == "iter":
             t = t[1]
@@ -1792,6 +1799,11 @@ def seq_view(t):
             if nm == "rev" and len(t[2]) == 1:
                 ops.append(("rev", 0))
                 adaptors["rev"] = adaptors.get("rev", 0) + 1
+                t = t[2][0]
+                continue
+            if nm == "filter" and len(t[2]) == 2 and t[2][1][0] == "closure":
+                filters.append(t[2][1])
+                adaptors["filter"] = adaptors.get("filter", 0) + 1
                 t = t[2][0]
                 continue
             if nm == "skip" and len(t[2]) == 2 and t[2][1][0] == "const" and isinstance(t[2][1][2], int):
@@ -1812,7 +1824,7 @@ def seq_view(t):
             df += k
         else:
             db += k
-    return {"base": t, "drop_front": df, "drop_back": db, "reversed": rev, "adaptors": adaptors}
+    return {"base": t, "drop_front": df, "drop_back": db, "reversed": rev, "adaptors": adaptors, "filters": filters}
 
 
 def split_first_payload(p):
@@ -2291,3 +2303,32 @@ def look_through(P, t):
     return t
 
 
+
+
+def produced_entries(r):
+    """the (key, value) entries an element context produces: `map.insert(k, v)` in a loop body, or the `Ok((k, v))` / `(k, v)` a
+    per-element closure returns: [(block, key term, value term)]"""
+    F, V = r["fn"], r["view"]
+    out = []
+    if r["kind"] == "loop":
+        for (bb, t, ci) in F.calls():
+            if ci and ci.get("name") == "insert" and bb in r["body"]:
+                a = V.call_args(bb)
+                if len(a) == 3:
+                    out.append((bb, a[1], a[2]))
+        return out
+    for (b, k, rv) in ret_writes(F):
+        t = V.cx.operand(rv["ops"][0]) if k == "ok" else V.cx.rvalue(rv, (F.key, b, 0)) if k == "other" else None
+        if t is not None and t[0] == "agg" and t[1] == "tuple" and len(t[4]) == 2:
+            out.append((b, t[4][0][1], t[4][1][1]))
+    return out
+
+
+def blocks_after_check(r, blocks):
+    """the given blocks of the element context are reachable only through the PASS edges of its per-element check"""
+    F = r["fn"]
+    starts = sorted(r.get("some_targets") or [0]) if r["kind"] == "loop" else [0]
+    reach = set()
+    for s0 in starts:
+        reach |= F.reach(s0, removed=frozenset(r["edges"]))
+    return bool(blocks) and not (reach & set(blocks))
